@@ -84,7 +84,7 @@ func texts(nodes []*html.Node, tag string) []string {
 
 func (c *c06Case) Run(ctx *core.Ctx) {
 	ctx.NonTrivial()
-	data := map[string]any{"v": "IV", "items": []string{"x0", "x1"}, "pv": "PV", "n7": 7}
+	data := map[string]any{"v": "IV", "items": []string{"x0", "x1"}, "pv": "PV", "n7": 7, "sparse": []map[string]any{{"name": "A", "badge": "new"}, {"name": "B"}, {"name": "C", "badge": "sale"}, {"name": "D", "badge": nil}}}
 	var files Files
 	var checks []func(nodes []*html.Node) (string, string) // returns (where, detail) on failure
 	expectText := func(tag string, want []string, where string) {
@@ -166,6 +166,14 @@ func (c *c06Case) Run(ctx *core.Ctx) {
 			comp = `<ul class="c"><li v-for="(i, it) in list"><slot :item="it" :index="i">FB{{ it }}</slot></li></ul>`
 			incAttrs = ` :list="items"`
 			want = []string{"x0/0", "x1/1"}
+		case "K3nil": // a prop that is nil for some iterations must not keep an earlier iteration's value
+			comp = `<ul class="c"><li v-for="o in list"><slot :item="o.name" :index="o.badge">FB{{ o.name }}</slot></li></ul>`
+			incAttrs = ` :list="sparse"`
+			want = []string{"A/new", "B/", "C/sale", "D/"}
+		case "K2two": // the same slot used twice with different sets of props
+			comp = `<ul class="c"><li><slot :item="p">FB{{ p }}</slot></li><li><slot :index="n">FB{{ p }}</slot></li></ul>`
+			incAttrs = ` :p="pv" :n="n7"`
+			want = []string{"PV/", "/7"}
 		case "K5":
 			comp = `<ul class="c"><li><slot name="row" :item="p" :index="n">FB{{ p }}</slot></li></ul>`
 			incAttrs = ` :p="pv" :n="n7"`
@@ -191,6 +199,9 @@ func (c *c06Case) Run(ctx *core.Ctx) {
 			content = ""
 			for i := range want {
 				want[i] = "FB" + strings.Split(want[i], "/")[0]
+			}
+			if c.Comp == "K2two" {
+				want = []string{"FBPV", "FBPV"}
 			}
 		case "plain":
 			if c.Comp == "K5" {
@@ -304,7 +315,7 @@ func init() {
 					}
 				}
 			}
-			for _, comp := range []string{"K2", "K2same", "K3", "K5"} {
+			for _, comp := range []string{"K2", "K2same", "K3", "K3nil", "K2two", "K5"} {
 				for _, form := range []string{"var", "destructure", "fallback", "plain"} {
 					emit(&c06Case{Part: "scoped", Comp: comp, Form: form})
 				}
